@@ -6,6 +6,7 @@ import (
 	"sort"
 
 	"github.com/ethereum/go-ethereum/common"
+	"github.com/ethereum/go-ethereum/core/rawdb"
 
 	"verifsim/simcore"
 )
@@ -51,6 +52,10 @@ func (rn *runner) checkRecoverable() (*simcore.Violation, []*state) {
 		k, want := rn.modelRecoverable(st.root, tail)
 		if answer[i] != want {
 			_, canon := rn.m.canonicalID(st.root)
+			if want && !answer[i] && rawdb.ReadStateID(rn.w.kv.Mem(), st.root) == nil {
+				return &simcore.Violation{Oracle: "recoverable-mismatch", Key: "recoverable-mismatch:state-id-mapping-missing",
+					Msg: fmt.Sprintf("Recoverable(state #%d root %x) = false although the state is canonical at id %d below the disk layer (id %d) and its history is retained (tail %d): the root -> id mapping (written by an unsynced single put ahead of the flush batch / journal) is not in the key-value store", st.idx, st.root[:4], k, rn.m.diskID(), tail)}, nil
+			}
 			return simcore.Violf("recoverable-mismatch", "Recoverable(state #%d root %x) = %v, expected %v (canonical=%v id=%d, disk layer id %d, history tail %d)", st.idx, st.root[:4], answer[i], want, canon, k, rn.m.diskID(), tail), nil
 		}
 		if want {
@@ -125,6 +130,7 @@ func (rn *runner) recoverOne(st *state) *simcore.Violation {
 	rn.mu.Lock()
 	pre := liveSet(rn.m)
 	rn.m.recoverTo(k)
+	rn.recovers = append(rn.recovers, recoverRec{seq: rn.w.clock.Now(), k: k})
 	t0 := rn.beginMut(pre)
 	rn.mu.Unlock()
 	var err error
@@ -231,11 +237,27 @@ func (rn *runner) endPhase(end string) *simcore.Violation {
 		t0 := rn.beginMut(pre)
 		tipIdx := rn.m.states[tip].idx
 		tipOrphan := rn.m.layers[tip].orphan
+		jr := journalRec{startSeq: rn.w.clock.Now(), diskID: rn.m.diskID()}
+		for c := rn.m.layers[tip]; ; c = rn.m.layers[c.parent] {
+			jr.chain = append([]common.Hash{c.root}, jr.chain...)
+			if c.disk {
+				break
+			}
+		}
 		rn.mu.Unlock()
 		var err error
 		v := guard("journal", func() { err = rn.w.db.Journal(tip) })
 		if v != nil {
 			return v
+		}
+		if err == nil {
+			rn.mu.Lock()
+			jr.endSeq = rn.w.clock.Now()
+			if pid := persistentID(rn.w.kv); pid < uint64(len(rn.m.canon)) {
+				jr.kvRoot = rn.m.canon[pid].root
+			}
+			rn.journals = append(rn.journals, jr)
+			rn.mu.Unlock()
 		}
 		if err != nil {
 			if tipOrphan {
